@@ -27,124 +27,108 @@ Definition C14_full_statement : Prop :=
   /\ mutable_unsafe effects = [].
 
 (* ------------------------------------------------------------------------------------------ *)
-(* the full statement is false of the faithful model: one witness per finding                  *)
+(* what holds: every conjunct but the last one, without any restriction                        *)
 (* ------------------------------------------------------------------------------------------ *)
 Definition ta := mkPT "a" None None.
 Definition tb := mkPT "b" None None.
 Definition tzz := mkPT "zz" None None.
+Definition ta_s1 := mkPT "a" (Some "s1") None.
 Definition upd_a := set_update (q_init QGeneric) (Some ta).
 Definition sel_a := set_from (q_init QGeneric) [TTab ta].
 Definition ins_a := set_insert (q_init QPostgres) (Some ta).
-
+Definition pg_sel := set_selects (set_from (q_init QPostgres) [TTab ta]) 1 false.
+Definition pg_upd := set_from (set_update (q_init QPostgres) (Some ta)) [TTab tb].
 Definition crit_tableless : list (jfield * jfield) := [((None, "x"), (Some (TTab tb), "y"))].
-Definition ta_s1 := mkPT "a" (Some "s1") None.
 Definition crit_shadow : list (jfield * jfield) :=
   [((Some (TTab ta_s1), "id"), (Some (TTab tb), "k")); ((Some (TTab ta), "id"), (Some (TTab tb), "id"))].
 
-(* C14-returning-non-dml: PostgreSQLQuery.from_(a).select('x').returning('*') is accepted *)
-Definition pg_sel := set_selects (set_from (q_init QPostgres) [TTab ta]) 1 false.
-Theorem C14_refuted_returning_non_dml :
-  wf_q pg_sel (QReturning [RStr true]) = true
-  /\ (exists s', step_q pg_sel (QReturning [RStr true]) = Ok s')
-  /\ first_fired guards_q (pg_sel, QReturning [RStr true]) = Some QueryExc
-  /\ step_q pg_sel (QReturning [RStr false]) = Err QueryExc.
-Proof. vm_compute. repeat split. eexists. reflexivity. Qed.
-Print Assumptions C14_refuted_returning_non_dml.
-
-(* C14-returning-mixed-term: update(a).from_(b).returning(a.x + b.y) raises, returning(a.x, b.y) is accepted *)
-Definition pg_upd := set_from (set_update (q_init QPostgres) (Some ta)) [TTab tb].
-Theorem C14_refuted_returning_mixed_term :
-  wf_q pg_upd (QReturning [RArith (RField (Some ta) "x") (RField (Some tb) "y")]) = true
-  /\ step_q pg_upd (QReturning [RArith (RField (Some ta) "x") (RField (Some tb) "y")]) = Err QueryExc
-  /\ first_fired guards_q (pg_upd, QReturning [RArith (RField (Some ta) "x") (RField (Some tb) "y")]) = None
-  /\ (exists s', step_q pg_upd (QReturning [RField (Some ta) "x"; RField (Some tb) "y"]) = Ok s').
-Proof. vm_compute. repeat split. eexists. reflexivity. Qed.
-Print Assumptions C14_refuted_returning_mixed_term.
-
-(* C14-returning-field-key-shadowing: into(a).returning(a.x + s1.a.x) is accepted *)
-Theorem C14_refuted_returning_key_shadowing :
-  wf_q ins_a (QReturning [RArith (RField (Some ta) "x") (RField (Some ta_s1) "x")]) = true
-  /\ (exists s', step_q ins_a (QReturning [RArith (RField (Some ta) "x") (RField (Some ta_s1) "x")]) = Ok s')
-  /\ first_fired guards_q (ins_a, QReturning [RArith (RField (Some ta) "x") (RField (Some ta_s1) "x")]) = Some QueryExc.
-Proof. vm_compute. repeat split. eexists. reflexivity. Qed.
-Print Assumptions C14_refuted_returning_key_shadowing.
-
-(* C14-mssql-top-float: top(5.7) is accepted (as 5) although top('5.7') is rejected as "not an integer" *)
-Theorem C14_refuted_mssql_top_float :
-  (exists s', step_q (q_init QMSSQL) (QTop (TVFloat 5) false) = Ok s')
-  /\ first_fired guards_q (q_init QMSSQL, QTop (TVFloat 5) false) = Some QueryExc
-  /\ step_q (q_init QMSSQL) (QTop TVStrBad false) = Err QueryExc.
-Proof. vm_compute. repeat split. eexists. reflexivity. Qed.
-Print Assumptions C14_refuted_mssql_top_float.
-
-(* C14-mutable findings: with immutable=False two multi-term methods have already written when they raise *)
-Theorem C14_refuted_mutable : mutable_unsafe effects = expected_mutable_unsafe /\ expected_mutable_unsafe <> [].
-Proof. split; [vm_compute; reflexivity | discriminate]. Qed.
-Print Assumptions C14_refuted_mutable.
-
-Theorem C14_refuted : ~ C14_full_statement.
-Proof.
-  intros [Hq _].
-  destruct C14_refuted_returning_mixed_term as [Hwf [Hstep [Hnone _]]].
-  pose proof (proj1 (Hq _ _ _ Hwf) Hstep) as H.
-  assert (E : Some QueryExc = None).
-  { transitivity (first_fired guards_q (pg_upd, QReturning [RArith (RField (Some ta) "x") (RField (Some tb) "y")]));
-      [symmetry; exact H | exact Hnone]. }
-  discriminate.
-Qed.
-Print Assumptions C14_refuted.
-
-(* ------------------------------------------------------------------------------------------ *)
-(* what holds: everything, outside exactly the situations above                                *)
-(* ------------------------------------------------------------------------------------------ *)
-Definition exact_on {S C : Type} (wf frag : S -> C -> bool) (step : S -> C -> res S) (gs : list (guard (S * C))) : Prop :=
-  forall s c k, wf s c = true -> frag s c = true -> (step s c = Err k <-> first_fired gs (s, c) = Some k).
-
-Definition C14_fragment_statement : Prop :=
-  exact_on wf_q frag_q step_q guards_q
+(* the guard half of the statement holds in full: for every kind of object, all states and all calls of the
+   contract, a call raises class k exactly when the documented table says so (no fragment left) *)
+Definition C14_guards_statement : Prop :=
+  exact wf_q step_q guards_q
   /\ exact wf_c step_c guards_c
   /\ exact wf_d step_d guards_d
   /\ exact always step_t guards_t
   /\ exact always step_w guards_w
   /\ exact always step_k guards_k
   /\ exact always step_f guards_f
-  /\ exact always step_s guards_s
+  /\ exact always step_s guards_s.
+
+Theorem C14_guards_hold : C14_guards_statement.
+Proof.
+  unfold C14_guards_statement, exact.
+  split; [exact guards_q_exact|]. split; [exact guards_c_exact|]. split; [exact guards_d_exact|].
+  split; [intros; apply guards_t_exact|]. split; [intros; apply guards_w_exact|].
+  split; [intros; apply guards_k_exact|]. split; [intros; apply guards_f_exact|].
+  intros; apply guards_s_exact.
+Qed.
+Print Assumptions C14_guards_hold.
+
+(* the full statement with its last conjunct replaced by what the sources give: with immutable=False exactly two
+   methods can have written before they raise -- returning() (finding C14-mutable-returning-partial: earlier terms of a
+   rejected call stay applied) and select() (only syntactically: see C14_select_atomic) *)
+Definition C14_fragment_statement : Prop :=
+  C14_guards_statement
   /\ raise_safe effects = true
   /\ mutable_unsafe effects = expected_mutable_unsafe
   /\ classes_ok effects expected_raises = true.
 
 Theorem C14_on_fragment : C14_fragment_statement.
 Proof.
-  unfold C14_fragment_statement, exact_on, exact.
-  split; [exact guards_q_exact|]. split; [exact guards_c_exact|]. split; [exact guards_d_exact|].
-  split; [intros; apply guards_t_exact|]. split; [intros; apply guards_w_exact|].
-  split; [intros; apply guards_k_exact|]. split; [intros; apply guards_f_exact|].
-  split; [intros; apply guards_s_exact|].
+  split; [exact C14_guards_hold|].
   split; [vm_compute; reflexivity|]. split; [vm_compute; reflexivity|]. vm_compute; reflexivity.
 Qed.
 Print Assumptions C14_on_fragment.
 
+(* select() (393df3f): the check now stands in front of the loop; once it has passed no term can be rejected, so the
+   raise inside the loop -- the only reason why the path-insensitive effects walk still lists select() -- is dead
+   and a rejected select() has applied nothing *)
+Theorem C14_select_atomic : forall s ts,
+  (forall k, step_q s (QSelect ts) = Err k ->
+     Nat.eqb (List.length (q_from s)) 0 && existsb (fun t => match t with SStr _ => true | _ => false end) ts = true)
+  /\ (Nat.eqb (List.length (q_from s)) 0 && existsb (fun t => match t with SStr _ => true | _ => false end) ts = false ->
+      exists s', fold_res sel1 s ts = Ok s').
+Proof.
+  intros s ts. split; [|apply select_loop_total].
+  intros k H. unfold step_q in H. cbn in H.
+  destruct (Nat.eqb (Datatypes.length (q_from s)) 0 && existsb (fun t => match t with SStr _ => true | _ => false end) ts) eqn:E; auto.
+  destruct (select_loop_total ts s E) as [s' Hs']. rewrite Hs' in H. discriminate.
+Qed.
+Print Assumptions C14_select_atomic.
+
+(* ------------------------------------------------------------------------------------------ *)
+(* the full statement is still false: the one remaining finding                                 *)
+(* ------------------------------------------------------------------------------------------ *)
+(* C14-mutable-returning-partial: with immutable=False, returning(t1, t2) has appended t1 when t2 is rejected *)
+Theorem C14_refuted_mutable : mutable_unsafe effects = expected_mutable_unsafe /\ expected_mutable_unsafe <> [].
+Proof. split; [vm_compute; reflexivity | discriminate]. Qed.
+Print Assumptions C14_refuted_mutable.
+
+Theorem C14_refuted : ~ C14_full_statement.
+Proof.
+  intros [_ [_ [_ [_ [_ [_ [_ [_ [_ H]]]]]]]]].
+  destruct C14_refuted_mutable as [E Hne]. rewrite H in E. apply Hne. now symmetry.
+Qed.
+Print Assumptions C14_refuted.
+
 (* the two polarities, spelled out for QueryBuilder objects *)
-Theorem C14_g_fires : forall s c g, wf_q s c = true -> frag_q s c = true ->
+Theorem C14_g_fires : forall s c g, wf_q s c = true ->
   In g guards_q -> g_cond g (s, c) = true -> exists k, step_q s c = Err k.
 Proof.
-  intros s c g Hwf Hfr Hin Hc. destruct (fires_first_fired _ guards_q (s, c) g Hin Hc) as [k Hk].
+  intros s c g Hwf Hin Hc. destruct (fires_first_fired _ guards_q (s, c) g Hin Hc) as [k Hk].
   exists k. now apply guards_q_exact.
 Qed.
 Print Assumptions C14_g_fires.
 
-Theorem C14_g_only_fires : forall s c k, wf_q s c = true -> frag_q s c = true -> step_q s c = Err k ->
+Theorem C14_g_only_fires : forall s c k, wf_q s c = true -> step_q s c = Err k ->
   exists g, In g guards_q /\ g_cond g (s, c) = true /\ g_exn g = k.
-Proof. intros s c k Hwf Hfr H. apply first_fired_sound. now apply guards_q_exact. Qed.
+Proof. intros s c k Hwf H. apply first_fired_sound. now apply guards_q_exact. Qed.
 Print Assumptions C14_g_only_fires.
 
-(* for all call histories: per call, outcome of the model = what the table documents *)
+(* for all call histories inside the contract: per call, outcome of the model = what the table documents *)
 Theorem C14_histories : forall cs s,
-  hist_ok (fun s c => wf_q s c && frag_q s c) step_q s cs = true ->
-  snd (run step_q s cs) = spec_outs guards_q step_q s cs.
-Proof.
-  apply history_exact. intros s c k H. apply andb_prop in H. destruct H. now apply guards_q_exact.
-Qed.
+  hist_ok wf_q step_q s cs = true -> snd (run step_q s cs) = spec_outs guards_q step_q s cs.
+Proof. apply history_exact. exact guards_q_exact. Qed.
 Print Assumptions C14_histories.
 
 (* a rejected call returns no new state: the history continues from the state before it *)
@@ -174,39 +158,52 @@ Proof. exact resolve_closed_form. Qed.
 Print Assumptions C14_resolve_closed_form.
 
 (* ------------------------------------------------------------------------------------------ *)
-(* non-vacuity: states and calls inside the fragment, both polarities                          *)
+(* non-vacuity: states and calls on both sides of the guards                                   *)
 (* ------------------------------------------------------------------------------------------ *)
 Example C14_example_join :
-  let s := set_joins sel_a [mkJ (TTab tb) (Some [ta; tb])] in
+  let s := set_joins sel_a [mkJ (TTab tb) (Some [ta; tb]) []] in
   let tc := mkPT "c" None None in
   let good := [((Some (TTab tb), "x"), (Some (TTab tc), "x")); ((None, "k"), (Some (TTab ta), "k"))] in
   let bad := [((Some (TTab tzz), "x"), (Some (TTab tc), "x"))] in
-  wf_q s (QJoin (TTab tc) (JOn (Some good))) && frag_q s (QJoin (TTab tc) (JOn (Some good))) = true
+  wf_q s (QJoin (TTab tc) (JOn (Some good))) = true
   /\ (exists s', step_q s (QJoin (TTab tc) (JOn (Some good))) = Ok s')
-  /\ wf_q s (QJoin (TTab tc) (JOn (Some bad))) && frag_q s (QJoin (TTab tc) (JOn (Some bad))) = true
+  /\ wf_q s (QJoin (TTab tc) (JOn (Some bad))) = true
   /\ step_q s (QJoin (TTab tc) (JOn (Some bad))) = Err JoinExc
   /\ first_fired guards_q (s, QJoin (TTab tc) (JOn (Some bad))) = Some JoinExc.
 Proof. vm_compute. repeat split. eexists. reflexivity. Qed.
 
-(* the situations repaired in pypika (a7c7bb0, 7e8ce52, 55ed75e) now agree with the table, inside the fragment *)
+(* a reference to a WITH query is judged when the statement is rendered: with_() may follow the join (160d589) *)
+Example C14_example_with_reference :
+  let w := [((Some (TAlq "w1"), "x"), (Some (TTab tb), "x"))] in
+  snd (run step_q (q_init QGeneric) [QFrom (TTab ta); QJoin (TTab tb) (JOn (Some w)); QRender; QSelect [SStr true]; QRender; QWith "w1"; QRender])
+  = [None; None; None; None; Some JoinExc; None; None]
+  /\ hist_ok wf_q step_q (q_init QGeneric) [QFrom (TTab ta); QJoin (TTab tb) (JOn (Some w)); QRender; QSelect [SStr true]; QRender; QWith "w1"; QRender] = true.
+Proof. vm_compute. split; reflexivity. Qed.
+
+(* the situations repaired in pypika (a7c7bb0, 7e8ce52, 55ed75e, a9c45a1, f36e217, bed0bb3) agree with the table *)
 Example C14_example_repaired :
   let jt := QJoin (TTab tb) (JOn (Some crit_tableless)) in
   let js := QJoin (TTab tb) (JOn (Some crit_shadow)) in
-  frag_q upd_a jt && frag_q sel_a js && frag_q (q_init QMSSQL) (QTop TVNone false) = true
-  /\ (exists s', step_q upd_a jt = Ok s') /\ first_fired guards_q (upd_a, jt) = None
+  let mixed := RArith (RField (Some ta) "x") (RField (Some tb) "y") in
+  let shadow := RArith (RField (Some ta) "x") (RField (Some ta_s1) "x") in
+  (exists s', step_q upd_a jt = Ok s') /\ first_fired guards_q (upd_a, jt) = None
   /\ step_q sel_a js = Err JoinExc /\ first_fired guards_q (sel_a, js) = Some JoinExc
   /\ step_q (q_init QMSSQL) (QTop TVNone false) = Err QueryExc
+  /\ step_q (q_init QMSSQL) (QTop (TVFloat 5) false) = Err QueryExc
+  /\ step_q pg_sel (QReturning [RStr true]) = Err QueryExc
+  /\ (exists s', step_q pg_upd (QReturning [mixed]) = Ok s') /\ first_fired guards_q (pg_upd, QReturning [mixed]) = None
+  /\ step_q ins_a (QReturning [shadow]) = Err QueryExc
   /\ snd (run step_c (mkC false true false false 1 None None) [CPrimaryKey 0; CPrimaryKey 1; CForeignKey 0; CForeignKey 1])
      = [None; Some AttrErr; None; Some AttrErr]
   /\ snd (run step_d (mkD true None None) [DDrop KUser false; DDrop KTable true; DOnCluster false; DOnCluster true])
      = [None; Some AttrErr; None; Some AttrErr].
-Proof. vm_compute. repeat split. eexists. reflexivity. Qed.
+Proof. vm_compute. repeat split; eexists; reflexivity. Qed.
 
 Example C14_example_returning :
   let t1 := RFn FPlain [RFn FAgg [RField (Some ta) "x"]; RConst] in     (* COALESCE(SUM(a.x), 0): aggregate *)
   let t2 := RFn FPlain [RField (Some ta) "x"; RConst] in                (* own table *)
   let t3 := RField (Some tzz) "x" in                                    (* foreign table *)
-  hist_ok (fun s c => wf_q s c && frag_q s c) step_q ins_a [QReturning [t2]; QReturning [t1]; QReturning [t2; t3]; QReturning [RStr true; t3]] = true
+  hist_ok wf_q step_q ins_a [QReturning [t2]; QReturning [t1]; QReturning [t2; t3]; QReturning [RStr true; t3]] = true
   /\ snd (run step_q ins_a [QReturning [t2]; QReturning [t1]; QReturning [t2; t3]; QReturning [RStr true; t3]])
      = [None; Some QueryExc; Some QueryExc; None].
 Proof. vm_compute. split; reflexivity. Qed.
